@@ -190,6 +190,9 @@ type Global struct {
 	builtinMts map[int]LValue
 	tempFiles  []*os.File
 	gccount    int32
+	// what require stores in package.loaded while a module is being loaded; one object per state,
+	// because a script can get hold of it (package.loaded[name] inside the loader)
+	loopDetection *LUserData
 }
 
 type LState struct {
